@@ -27,6 +27,8 @@ import Pycdlib.Model.InPlace
 import Pycdlib.Model.VdOrder
 import Pycdlib.Model.Reloc
 import Pycdlib.Model.Iso
+import Pycdlib.Model.DirBytes
+import Pycdlib.Model.PtBytes
 namespace Pycdlib
 
 def parseCps (s : String) : Option (List Nat) :=
@@ -177,6 +179,26 @@ def dispatchPure (toks : List String) : Option String :=
     match Reloc.relocMany name.toList (← k.toNat?) [] with
     | some l => pure (".".intercalate (l.map String.ofList))
     | none => pure "none"
+  | ["ptext", be, img, recs] => do
+    -- one path table as written vs the model writer, and the model reader on the written bytes
+    let got ← ofHex img
+    let be := be = "1"
+    let rs ← (recs.splitOn ",").mapM fun x =>
+      match x.splitOn ":" with
+      | [e, p, i] => do pure ({ extent := ← e.toNat?, parent := ← p.toNat?, ident := ← ofHex i } : PTRF)
+      | _ => none
+    let want := PtBytes.render be rs
+    let back := PtBytes.parse be rs.length got
+    pure s!"{if want == got then "render-ok" else "render-diff"} {if back == some rs then "parse-ok" else "parse-diff"}"
+  | ["dirext", img, recs] => do
+    -- one directory extent as written vs the model writer, and the model reader on the written bytes
+    let got ← ofHex img
+    let rs ← if recs = "-" then some [] else (recs.splitOn ",").mapM ofHex
+    let used := (DirBytes.render 2048 0 rs).length
+    if got.length < used ∨ got.length % 2048 ≠ 0 then pure s!"short used={used} have={got.length}" else
+    let want := DirBytes.renderDir 2048 rs ((got.length - used) / 2048)
+    let back := DirBytes.parse 2048 got.length 0 got
+    pure s!"{if want == got then "render-ok" else "render-diff"} {if back == rs then "parse-ok" else "parse-diff"}"
   | "isorun" :: st :: ops => do
     -- size bookkeeping machine: state, then one token per public edit; answer: the state after every edit
     let s ← Iso.decState st
